@@ -1,6 +1,7 @@
 """Checks decided by Contract.tla (multi-handle sequential histories with an outside writer):
 C04 (writes through any handle never clobber), C02 (read-through / attachment), history parts of
 C01 and C17, family part of C18."""
+import json
 import random
 
 from . import common, env, hist, tlc, val
@@ -146,7 +147,12 @@ def check_C04(tier):
               "writer, generated by TLC from Contract.tla; after every mutator through any handle the raw resource "
               "must equal the model document (the operation applied at the handle's path to the CURRENT document); "
               "distinct = distinct (state, action) edges of the BFS graph"),
-        assumptions=[BOUNDS, FAKES, "handles that lost their attachment guarantee (PyOps!Destroys) are not used further"])
+        assumptions=[BOUNDS, FAKES, "handles that lost their attachment guarantee (PyOps!Destroys) are not used further",
+                     "Sync.tla (Level 2, identities): exhaustive BFS of two objects + retained node objects + orphans + outside "
+                     "writer to 3 (quick) / 4 (thorough) steps with the C04/C02 statements as action properties on every edge; "
+                     "sampled shortest-path behaviours replayed on all 18 classes comparing results, resource, in-memory "
+                     "images (no load) and the position of every retained node object by `is`"],
+        extra=sync_mechanism)
 
 
 def check_C02(tier):
@@ -309,6 +315,99 @@ def merge_pairs(run, tier):
         if r2.violated != "C02_MergeEqualsNew":
             run.machinery_error(f"deviation flag {flag} of Merge.tla has no witness")
         run.cov.setdefault("deviation_witnesses", {})[flag] = str(r2.violated)
+
+
+# ------------------------------------------------------------------ Sync.tla: the mechanism on identities
+def _sync_job(args):
+    spec_name, hs = args
+    from . import syncrun
+    env.install()
+    spec = env.spec_by_name(spec_name)
+    out = []
+    for h in hs:
+        try:
+            pr = syncrun.replay(spec, h)
+        except Exception:  # noqa: BLE001
+            import traceback
+            pr = [{"aspect": "harness", "detail": traceback.format_exc(limit=6)}]
+        if pr:
+            lab = [s_["last"] for s_ in h[1:]]
+            out.append({"cls": spec_name, "op": "sync:" + "/".join(x.get("op", {}).get("op", x["a"]) for x in lab),
+                        "aspect": pr[0]["aspect"], "detail": pr[0]["detail"], "step": pr[0].get("step"),
+                        "sync_history": h, "replay_fn": ["chk_contract", "replay_sync"]})
+    return out
+
+
+def replay_sync(prop, case):
+    from . import syncrun
+    env.install()
+    pr = syncrun.replay(env.spec_by_name(case["cls"]), case["sync_history"])
+    if pr:
+        print(f"VIOLATION property={prop} replay={__import__('os').environ.get('VERIF_REPLAY_PATH', '-')} {json.dumps(pr[0], default=repr)[:600]}")
+        return 1
+    print("not reproduced on this tree")
+    return 0
+
+
+SYNC_PROPS = ["P_C04_AppliedToCurrent", "P_C02_ReadsCurrent", "P_C04_OrphanHarmless", "P_Mech_MutateMatchesApply"]
+
+
+def sync_mechanism(run, tier):
+    """Sync.tla: TLC checks the mechanism (load -> in-place merge -> mutate the node OBJECT -> save the root, with
+    orphans) against the Level-1 statements on every edge, and exports shortest-path behaviours; the harness replays
+    them on every class and compares, after every step, results, resource, in-memory images and identities."""
+    quick = tier == "quick"
+    base = {"Objs": '{"o1", "o2"}', "MaxId": "2", "MaxSteps": "4" if quick else "5", "SampleK": "100" if quick else "1500",
+            "Dev_NestedNoLoad": "FALSE", "Dev_NoneIsNoop": "FALSE", "Dev_PyEqKeepsOld": "FALSE"}
+    for kind in ("d", "l"):
+        consts = dict(base, Kind=f'"{kind}"')
+        cfg = tlc.cfg_text(init="MCInit", next_="MCNext", constants=consts, constraints=["Bounded"], view="View",
+                           action_constraints=["ExportPath"], properties=SYNC_PROPS, invariants=["Mech_OnePlace"])
+        res = tlc.run("MC_Sync", cfg, name=f"sync-{kind}", seed=common.seed(), timeout=3000)
+        if not res.ok:
+            if res.violated:
+                run.violation({"cls": "Sync.tla", "op": f"model kind={kind}", "aspect": "model",
+                               "detail": f"TLC: {res.violated} violated in the mechanism model", "trace": res.trace_text()[:3000]})
+            else:
+                run.machinery_error(f"TLC MC_Sync {kind}: {res.errors[:2]} {res.tail(8)}")
+            continue
+        run.add_tlc(res, f"Sync.tla mechanism on identities kind={kind}")
+        hs = list(res.records("SYH"))
+        acts = {}
+        for h in hs:
+            for s_ in h[1:]:
+                la = s_["last"]
+                key = la["a"] if la["a"] != "do" else ("do" if la["attached"] else "do-orphan")
+                acts[key] = acts.get(key, 0) + 1
+                if la.get("given"):
+                    acts["node-object-as-value"] = acts.get("node-object-as-value", 0) + 1
+            run._distinct.add(("sync", json.dumps([s_["last"] for s_ in h[1:]], sort_keys=True)))
+        run.cov.setdefault("sync_behaviours", {})[kind] = {"replayed": len(hs), "steps_by_kind": acts}
+        for need in ("do", "do-orphan", "nav", "ext", "node-object-as-value"):
+            if not acts.get(need):
+                run.machinery_error(f"Sync.tla kind={kind}: no exported behaviour contains a {need} step")
+        if hs:
+            run.sample([{k: v for k, v in s_["last"].items() if k != "before"} for s_ in hs[len(hs) // 2][1:]])
+        jobs = []
+        for spec in env.specs(kind=kind):
+            for ch in common.chunks(hs, 6):
+                jobs.append((spec.name, ch))
+        for out in common.pmap(_sync_job, jobs):
+            for v in out:
+                if v["aspect"] == "harness":
+                    run.machinery_error(v["detail"])
+                else:
+                    run.violation(v)
+        nspec = len(env.specs(kind=kind))
+        run.cov["evaluations"] += sum(len(h) - 1 for h in hs) * nspec
+        run.cov["traces_validated_against_impl"] += len(hs) * nspec
+    # the deviation flag must have a witness
+    consts = dict(base, Kind='"d"', SampleK="1000000", MaxSteps="4", Dev_NestedNoLoad="TRUE")
+    r2 = tlc.run("MC_Sync", tlc.cfg_text(init="MCInit", next_="MCNext", constants=consts, constraints=["Bounded"], view="View",
+                                         properties=["P_C04_AppliedToCurrent"]), name="sync-dev", timeout=900)
+    if r2.violated != "P_C04_AppliedToCurrent":
+        run.machinery_error(f"deviation flag Dev_NestedNoLoad of Sync.tla has no witness ({r2.violated})")
+    run.cov.setdefault("deviation_witnesses", {})["Dev_NestedNoLoad"] = str(r2.violated)
 
 
 def buffered_histories(run, prop, tier):
